@@ -57,11 +57,20 @@ class SimFS:
             return False
         if isinstance(p, bytes):
             p = os.fsdecode(p)
+        if not os.path.isabs(p):
+            # a relative path is relative to the run's working directory
+            p = os.path.abspath(p)
         return p.startswith(self.root)
 
     def _step(self, opname, path):
         idx = len(self.calls)
-        rel = os.fspath(path)[len(self.root):] if path is not None else ''
+        rel = ''
+        if path is not None:
+            ap = os.fspath(path)
+            if isinstance(ap, bytes):
+                ap = os.fsdecode(ap)
+            ap = os.path.abspath(ap)
+            rel = ap[len(self.root):] if ap.startswith(self.root) else ap
         self.calls.append((idx, opname, rel))
         f = self.plan.get(idx)
         if f is not None:
@@ -184,6 +193,7 @@ class FaultyRaw(io.RawIOBase):
         self._fd = os.memfd_create('hplsim_' + name)
         self._keep = os.dup(self._fd)  # survives a dup2() over the public descriptor
         self.accepted = 0
+        self.short_accepts = 0
         self.fired = 0
         self.write_calls = 0
         self._armed = fault is not None
@@ -206,6 +216,7 @@ class FaultyRaw(io.RawIOBase):
                 # short write: accept what fits; the caller's next write hits the fault
                 os.write(self._fd, b[:room])
                 self.accepted += room
+                self.short_accepts += 1
                 return room
             if room <= 0 or len(b) > room:
                 self.fired += 1
